@@ -31,6 +31,7 @@ type kfDB struct {
 	values  map[string]vocab.Type
 	getNil  bool
 	actorOf string
+	updated []vocab.Type
 }
 
 func newKfDB() *kfDB {
@@ -140,7 +141,11 @@ func (d *kfDB) Get(c context.Context, id *url.URL) (vocab.Type, error) {
 	return d.values[id.String()], nil
 }
 func (d *kfDB) Create(c context.Context, asType vocab.Type) error { d.access("Create"); return d.fail("Create") }
-func (d *kfDB) Update(c context.Context, asType vocab.Type) error { d.access("Update"); return d.fail("Update") }
+func (d *kfDB) Update(c context.Context, asType vocab.Type) error {
+	d.access("Update")
+	d.updated = append(d.updated, asType)
+	return d.fail("Update")
+}
 func (d *kfDB) Delete(c context.Context, id *url.URL) error       { d.access("Delete"); return d.fail("Delete") }
 func (d *kfDB) GetOutbox(c context.Context, outboxIRI *url.URL) (vocab.ActivityStreamsOrderedCollectionPage, error) {
 	d.access("GetOutbox")
@@ -445,5 +450,39 @@ func TestKnownFinding_F17(t *testing.T) {
 	}
 	if deliverable {
 		t.Fatalf("a Block was reported deliverable by PostOutbox (it would be sent to the blocked actor)")
+	}
+}
+
+// F12 (C16): an Update whose object supplies a member as JSON null must remove that member from the stored
+// object and leave the members it does not supply alone. The null deletion read the nulls from the activity's
+// top level instead of from the supplied object.
+func TestKnownFinding_F12(t *testing.T) {
+	app, sea, _ := kfSetup()
+	stored := kfMustType(t, `{"@context":"https://www.w3.org/ns/activitystreams","type":"Note","id":"https://local.example/n/1","summary":"old summary","name":"the name","content":"old"}`)
+	app.db.values["https://local.example/n/1"] = stored
+	raw := map[string]interface{}{}
+	js := `{"@context":"https://www.w3.org/ns/activitystreams","type":"Update","id":"https://local.example/u/1","actor":"https://local.example/me","name":null,"object":{"type":"Note","id":"https://local.example/n/1","summary":null,"content":"new"}}`
+	if err := json.Unmarshal([]byte(js), &raw); err != nil {
+		t.Fatal(err)
+	}
+	upd := kfMustType(t, js).(Activity)
+	if _, err := sea.PostOutbox(context.Background(), upd, kfURL("https://local.example/me/outbox"), raw); err != nil {
+		t.Fatal(err)
+	}
+	if len(app.db.updated) != 1 {
+		t.Fatalf("want one Database.Update, got %d", len(app.db.updated))
+	}
+	m, err := streams.Serialize(app.db.updated[0])
+	if err != nil {
+		t.Fatal(err)
+	}
+	if _, ok := m["summary"]; ok {
+		t.Errorf("member supplied as JSON null in the object was not removed: summary=%v", m["summary"])
+	}
+	if m["name"] != "the name" {
+		t.Errorf("member not supplied in the object was changed: name=%v (a null on the Update activity itself deleted it)", m["name"])
+	}
+	if m["content"] != "new" {
+		t.Errorf("supplied member not replaced: content=%v", m["content"])
 	}
 }
